@@ -155,9 +155,33 @@ def main(argv=None):
                 print(f'VIOLATION property={pid} replay={a.replay}')
                 return 1
             return 0
+        for n in getattr(idx, 'normalisation', []):
+            c.note('normalised: ' + n)
+        if getattr(idx, 'normalisation', None):
+            print(f'{pid}: tree differs from the reference snapshot by '
+                  f'{len(idx.normalisation)} recognised refactoring(s); '
+                  'rules run on the normal form (see evidence notes)')
         if tier == 'thorough' or a.selftest:
             global _BASE_IDX
             _BASE_IDX = idx
+            # the normaliser's own both-ways battery
+            import importlib.util
+            import io
+            import contextlib
+            spec = importlib.util.spec_from_file_location(
+                'normtest', os.path.join(os.path.dirname(os.path.dirname(
+                    os.path.abspath(__file__))), 'tools', 'normtest.py'))
+            nt = importlib.util.module_from_spec(spec)
+            spec.loader.exec_module(nt)
+            buf = io.StringIO()
+            with contextlib.redirect_stdout(buf):
+                rc = nt.main()
+            if rc:
+                print(f'ANALYSIS-ERROR property={pid}: normaliser self-test '
+                      'failed\n' + buf.getvalue()[-2000:])
+                return 2
+            c.note('normaliser self-test: ' + buf.getvalue().strip(
+                ).splitlines()[-1])
             summary, problems = selftest(pid, repo, fails_of(c), mod)
             c.note('selftest: ' + json.dumps(summary)[:4000])
             if problems:
